@@ -126,6 +126,10 @@ var templates = []tmpl{
 	{name: "deviate-gives-a-type-to-a-node-that-is-no-leaf", files: []string{
 		`module m { ` + hdr("m") + ` container c { leaf x { type string; } } list l { key k; leaf k { type string; } } choice ch { leaf a { type string; } } %PAD }`,
 		`module d { ` + hdr("d") + ` import m { prefix m; } deviation /m:%NOLEAF { deviate %ADDREP { type int8; } } }`}},
+	{name: "include-of-a-submodule-that-belongs-to-another-module", files: []string{
+		`module m { ` + hdr("m") + ` include s; container own { } %PAD }`,
+		`module o { ` + hdr("o") + ` leaf ol { type string; } }`,
+		`submodule s { belongs-to o { prefix o; } container sc { leaf l { type string; } } }`}},
 	{name: "not-supported-twice-in-one-deviation", files: []string{
 		`module m { ` + hdr("m") + ` container c { leaf x { type string; } leaf y { type string; } %PAD } }`,
 		`module d { ` + hdr("d") + ` import m { prefix m; } deviation /m:c/m:x { deviate not-supported; deviate not-supported; } }`}},
